@@ -24,9 +24,12 @@ impl<I, C> FramedRead<I, C> {
 impl JsonRpcCodec { #[verifier::external_body] pub fn default() -> (r: Self) { unimplemented!() } }
 /// env mirror of ConfiguredPlugin with the real field names used by the slice of start()
 pub struct ConfiguredPlugin<I, O> { pub input: FramedRead<I, JsonRpcCodec>, pub output: Arc<Mutex<FramedWrite<O, JsonCodec>>> }
-pub struct FramedWrite<O, C> { pub p: core::marker::PhantomData<(O, C)> }
-pub struct Mutex<T> { pub p: core::marker::PhantomData<T> }
-pub struct WriterGuard<'a, O> { pub p: core::marker::PhantomData<&'a O> }
+// `id`: ghost identity (a struct of PhantomData only would be single-valued: any two values provably equal)
+pub struct FramedWrite<O, C> { pub p: core::marker::PhantomData<(O, C)>, pub id: Ghost<int> }
+// `id`: ghost identity (a struct of PhantomData only would be single-valued: any two values provably equal)
+pub struct Mutex<T> { pub p: core::marker::PhantomData<T>, pub id: Ghost<int> }
+// `id`: ghost identity (a struct of PhantomData only would be single-valued: any two values provably equal)
+pub struct WriterGuard<'a, O> { pub p: core::marker::PhantomData<&'a O>, pub id: Ghost<int> }
 impl<O> Mutex<FramedWrite<O, JsonCodec>> {
     #[verifier::external_body]
     pub fn lock(&self) -> (g: WriterGuard<'_, O>) { unimplemented!() }
@@ -41,7 +44,8 @@ impl<'a, O> WriterGuard<'a, O> {
 }
 pub mod tokio { pub mod sync { pub mod mpsc {
     use super::super::super::*;
-    pub struct Receiver<T> { pub p: core::marker::PhantomData<T> }
+    // `id`: ghost identity (a struct of PhantomData only would be single-valued: any two values provably equal)
+    pub struct Receiver<T> { pub p: core::marker::PhantomData<T>, pub id: Ghost<int> }
     impl Receiver<Value> {
         /// takes the next queued reply out of the channel (None: all senders are gone)
         #[verifier::external_body]
